@@ -13,6 +13,8 @@ def audit(f, closures=()):
     for g in (f,) + tuple(closures):
         for b, t in g.calls():
             last = callee(t).split("::")[-1]
+            if t[1].get("mac") == "Desugaring":
+                continue            # the `for` loop's own into_iter / next
             if last in DROPS:
                 drops.append((last, t[1].get("l")))
             if last in ("collect", "collect_vec", "from_iter"):
